@@ -295,12 +295,20 @@ def enumerate_sites(F, fn, cfg):
 # auto discharge
 
 
-def _cmp_guards(body, site_bb):
-    """dominating bool-switch blocks with the edge taken towards the site:
+def _cmp_guards(body, site_bb, start=0):
+    """bool-switch blocks lying on every path start→site with the edge taken towards the site:
     yields (block, cond_origin, polarity) where polarity True = site only reachable via the true edge"""
+    key = (site_bb, start)
+    memo = body.__dict__.setdefault("_cmpg_memo", {})
+    if key in memo:
+        return memo[key]
     out = []
-    doms = body.dom.get(site_bb, set())
-    for g in doms:
+    if start == 0:
+        cands = body.dom.get(site_bb, set())
+    else:
+        r0 = body.reach([start])
+        cands = r0 if site_bb in r0 else set()
+    for g in cands:
         if g == site_bb:
             continue
         e = FX.bool_edges(body, g)
@@ -310,18 +318,271 @@ def _cmp_guards(body, site_bb):
         # which edge leads to the site exclusively?
         succ = [list(s) for s in body.succ]
         succ[g] = [ff]
-        via_false = site_bb in body.reach([0], succ=succ)
+        via_false = site_bb in body.reach([start], succ=succ)
         succ[g] = [tt]
-        via_true = site_bb in body.reach([0], succ=succ)
+        via_true = site_bb in body.reach([start], succ=succ)
+        if g == start:
+            via_false = site_bb in body.reach([ff], avoid=[g]) or ff == site_bb
+            via_true = site_bb in body.reach([tt], avoid=[g]) or tt == site_bb
         if via_true and not via_false:
             out.append((g, body.origin(body.term(g)[1]), True))
         elif via_false and not via_true:
             out.append((g, body.origin(body.term(g)[1]), False))
+    memo[key] = out
     return out
 
 
+_NEG = {"Lt": "Ge", "Le": "Gt", "Gt": "Le", "Ge": "Lt", "Eq": "Ne", "Ne": "Eq"}
+
+
+def _norm_cmp(cond, pol):
+    """(op, a, b) of a comparison origin under the polarity of the edge taken, else None"""
+    c, p = cond, pol
+    while c[0] == "un" and c[1] == "Not":
+        c, p = c[2], not p
+    if c[0] != "bin" or c[1] not in _NEG:
+        return None
+    op = c[1] if p else _NEG[c[1]]
+    return op, c[2], c[3]
+
+
+def const_eval(t, depth=0):
+    """value of a compile-time constant integer expression tree, else None"""
+    if depth > 10 or not isinstance(t, tuple):
+        return None
+    k = t[0]
+    if k == "lit":
+        return t[1] if isinstance(t[1], int) and not isinstance(t[1], bool) else None
+    if k == "const":
+        return t[2] if isinstance(t[2], int) and not isinstance(t[2], bool) else None
+    if k == "cast" and t[1] == "IntToInt":
+        return const_eval(t[2], depth + 1)
+    if k == "field" and t[2] == "0" and isinstance(t[1], tuple) and t[1][0] == "bin" and t[1][1].endswith("WithOverflow"):
+        return const_eval(("bin", t[1][1].replace("WithOverflow", ""), t[1][2], t[1][3]), depth + 1)
+    if k == "bin":
+        a, b = const_eval(t[2], depth + 1), const_eval(t[3], depth + 1)
+        if a is None or b is None:
+            return None
+        op = t[1].replace("Unchecked", "")
+        try:
+            return {"Add": a + b, "Sub": a - b, "Mul": a * b, "Div": a // b if b else None, "Rem": a % b if b else None,
+                    "Shl": a << b if 0 <= b < 128 else None, "Shr": a >> b if 0 <= b < 128 else None,
+                    "BitAnd": a & b, "BitOr": a | b}.get(op)
+        except Exception:
+            return None
+    return None
+
+
+def _stable(t):
+    """an origin tree that denotes one value on every path (no merge of different definitions)"""
+    for n in walk(t):
+        if n[0] in ("phi", "loop", "top", "partial", "undef"):
+            return False
+    return True
+
+
+def guard_ub(body, site_bb, val, start=0):
+    """largest constant U such that the guards on every path start→site imply val <= U"""
+    if not _stable(val):
+        return None
+    best = None
+    for g, cond, pol in _cmp_guards(body, site_bb, start):
+        n = _norm_cmp(cond, pol)
+        if not n:
+            continue
+        op, a, b = n
+        u = None
+        if _eq_mod_casts(a, val):
+            cb = const_eval(b)
+            if cb is not None:
+                u = {"Lt": cb - 1, "Le": cb, "Eq": cb}.get(op)
+        elif _eq_mod_casts(b, val):
+            ca = const_eval(a)
+            if ca is not None:
+                u = {"Gt": ca - 1, "Ge": ca, "Eq": ca}.get(op)
+        if u is not None:
+            best = u if best is None else min(best, u)
+    return best
+
+
+def guard_lb(body, site_bb, val, start=0):
+    """smallest constant L such that the guards on every path start→site imply val >= L"""
+    if not _stable(val):
+        return None
+    best = None
+    for g, cond, pol in _cmp_guards(body, site_bb, start):
+        n = _norm_cmp(cond, pol)
+        if not n:
+            continue
+        op, a, b = n
+        l = None
+        if _eq_mod_casts(a, val):
+            cb = const_eval(b)
+            if cb is not None:
+                l = {"Gt": cb + 1, "Ge": cb, "Eq": cb}.get(op)
+                if op == "Ne" and cb == 0:
+                    l = 1
+        elif _eq_mod_casts(b, val):
+            ca = const_eval(a)
+            if ca is not None:
+                l = {"Lt": ca + 1, "Le": ca, "Eq": ca}.get(op)
+                if op == "Ne" and ca == 0:
+                    l = 1
+        if l is not None:
+            best = l if best is None else max(best, l)
+    return best
+
+
+# upper bounds of struct fields proven by a property-specific FIELD-UB rule (set by the rule module for its run)
+FIELD_UB = {}
+
+
+def tree_ub_at(body, site_bb, t, start=0, depth=0):
+    """inclusive constant upper bound of a (stable) value tree at a site: constants, arithmetic,
+    field invariants, and guards on every path to the site"""
+    if depth > 10 or not isinstance(t, tuple):
+        return None
+    c = const_eval(t)
+    if c is not None:
+        return c
+    g = guard_ub(body, site_bb, t, start)
+    k = t[0]
+    u = None
+    if k == "cast" and t[1] == "IntToInt":
+        inner = tree_ub_at(body, site_bb, t[2], start, depth + 1)
+        src = {"u8": 255, "u16": 65535, "u32": 2 ** 32 - 1, "bool": 1}.get(t[3])
+        dst = {"u8": 255, "u16": 65535, "u32": 2 ** 32 - 1, "usize": 2 ** 64 - 1, "u64": 2 ** 64 - 1, "u128": 2 ** 128 - 1}.get(t[4])
+        c2 = [x for x in (inner, src) if x is not None]
+        if c2 and dst is not None:
+            u = min(min(c2), dst)
+    elif k == "bin":
+        op = t[1].replace("Unchecked", "").replace("WithOverflow", "")
+        a = tree_ub_at(body, site_bb, t[2], start, depth + 1)
+        b = tree_ub_at(body, site_bb, t[3], start, depth + 1)
+        cb = const_eval(t[3])
+        if op == "Div" and a is not None and cb:
+            u = a // cb
+        elif op == "Div" and a is not None:
+            u = a
+        elif op == "Rem" and cb:
+            u = cb - 1
+        elif op == "BitAnd":
+            c2 = [x for x in (a, b) if x is not None]
+            u = min(c2) if c2 else None
+        elif op == "Shr" and a is not None:
+            u = a >> (cb if cb is not None and 0 <= cb < 128 else 0)
+        elif op in ("Add",) and a is not None and b is not None and a + b < 2 ** 64:
+            u = a + b
+        elif op in ("Mul",) and a is not None and b is not None and a * b < 2 ** 64:
+            u = a * b
+        elif op in ("Lt", "Le", "Gt", "Ge", "Eq", "Ne"):
+            u = 1
+    elif k == "field" and t[2] == "0" and isinstance(t[1], tuple) and t[1][0] == "bin" and t[1][1].endswith("WithOverflow"):
+        u = tree_ub_at(body, site_bb, ("bin", t[1][1].replace("WithOverflow", ""), t[1][2], t[1][3]), start, depth + 1)
+    elif k == "field" and t[2] in FIELD_UB:
+        u = FIELD_UB[t[2]]
+    elif k in ("field", "downcast") and isinstance(t[1], tuple):
+        # payload of an Option-typed field with a proven bound:  (x.f as Some).0
+        inner = t[1]
+        while isinstance(inner, tuple) and inner and inner[0] in ("downcast", "field") and not (inner[0] == "field" and inner[2] in FIELD_UB):
+            inner = inner[1] if isinstance(inner[1], tuple) else None
+            if inner is None:
+                break
+        if isinstance(inner, tuple) and inner and inner[0] == "field" and inner[2] in FIELD_UB:
+            u = FIELD_UB[inner[2]]
+    elif k == "call":
+        nm = t[1]
+        if nm.endswith("::min") or "::cmp::min" in nm:
+            c2 = [x for x in (tree_ub_at(body, site_bb, a, start, depth + 1) for a in t[2]) if x is not None]
+            u = min(c2) if c2 else None
+        elif nm.endswith("Option::<T>::unwrap_or") and len(t[2]) == 2:
+            o, d = t[2]
+            du = tree_ub_at(body, site_bb, d, start, depth + 1)
+            ou = None
+            if isinstance(o, tuple) and o and o[0] == "field" and o[2] in FIELD_UB:
+                ou = FIELD_UB[o[2]]
+            if du is not None and ou is not None:
+                u = max(du, ou)
+    c2 = [x for x in (g, u) if x is not None]
+    return min(c2) if c2 else None
+
+
+def place_ub_at(body, site_bb, op, depth=0, _vis=None):
+    """inclusive upper bound of an operand at a site, path-sensitive over the definitions of a
+    multiply-assigned local: each definition must be bounded by a constant, by arithmetic over
+    bounded values, or by a guard that all paths from that definition to the site pass"""
+    k = op_const(op)
+    if k is not None:
+        v = k.get("v")
+        return v if isinstance(v, int) and not isinstance(v, bool) else None
+    pl = op_place(op)
+    if pl is None or pl[1] or depth > 8:
+        return tree_ub_at(body, site_bb, body.origin(op)) if pl is not None else None
+    l = pl[0]
+    _vis = _vis or frozenset()
+    if l in _vis or 1 <= l <= body.argc:
+        return None
+    defs = body.defs.get(l, ())
+    if not defs:
+        return None
+    ubs = []
+    for d in defs:
+        if d[3]:
+            return None
+        B = d[1]
+        if site_bb not in body.reach([B]) and B != site_bb:
+            continue
+        if d[0] != "assign":
+            t = body.local_origin(l)
+            u = tree_ub_at(body, site_bb, t) if len(defs) == 1 else None
+            if u is None:
+                return None
+            ubs.append(u)
+            continue
+        rv = d[4]
+        u = None
+        t = body._rvalue_origin(rv, 12, frozenset())
+        if _stable(t):
+            c2 = [x for x in (tree_ub_at(body, B, t, 0), tree_ub_at(body, site_bb, t, B)) if x is not None]
+            u = min(c2) if c2 else None
+        if u is None and rv[0] == "use":
+            u = place_ub_at(body, B, rv[1], depth + 1, _vis | {l})
+        if u is None and rv[0] == "bin":
+            op2 = rv[1].replace("Unchecked", "")
+            a = place_ub_at(body, B, rv[2], depth + 1, _vis | {l})
+            cb = const_int(rv[3])
+            if op2 == "Div" and a is not None and cb:
+                u = a // cb
+            elif op2 == "Rem" and cb:
+                u = cb - 1
+        if u is None and rv[0] == "cast" and rv[1] == "IntToInt":
+            u = place_ub_at(body, B, rv[2], depth + 1, _vis | {l})
+        if u is None:
+            return None
+        ubs.append(u)
+    return max(ubs) if ubs else None
+
+
+_PURE_CALL = re.compile(r"(<impl \[T\]>|Vec::<T, A>|<impl str>|String|VecDeque::<T, A>|ArrayVec::<A>|TinyVec::<A>)::(len|is_empty|as_slice|as_str|as_bytes)$"
+                        r"|ops::deref::Deref(>)?::deref$|convert::(From|Into)(<.*>)?(>)?::(from|into)$|convert::AsRef(<.*>)?(>)?::as_ref$"
+                        r"|core::num::<impl [a-z0-9]+>::(from_be_bytes|from_le_bytes|to_be|to_le|swap_bytes|is_multiple_of|min|max|saturating_sub|saturating_add|wrapping_add|wrapping_sub)$")
+
+
+def _pure_tree(t):
+    """every call in the tree is a pure accessor of its arguments (same arguments ⇒ same value)"""
+    for n in walk(t):
+        if n[0] == "call" and not (_PURE_CALL.search(n[1]) or (len(n) > 3 and n[3] and _PURE_CALL.search(n[3]))):
+            return False
+        if n[0] in ("icall", "top", "loop", "phi", "partial", "undef"):
+            return False
+    return True
+
+
 def _eq_mod_casts(a, b):
-    return strip_casts(a) == strip_casts(b)
+    a, b = strip_casts(a), strip_casts(b)
+    if a == b:
+        return True
+    return FX.strip_sites(a) == FX.strip_sites(b) and _pure_tree(a)
 
 
 def implies_lt(cond, pol, idx, length):
@@ -433,6 +694,64 @@ def _len_relative_range(body, s, base):
     return None
 
 
+def _len_tree_of(t):
+    """S if t is len(S) / PtrMetadata(S) (modulo casts)"""
+    t = strip_casts(t)
+    if t[0] == "call" and re.search(r"(<impl \[T\]>|Vec::<T, A>|<impl str>)::len$", t[1]) and len(t[2]) == 1:
+        return _peel_refs(t[2][0])
+    if t[0] == "un" and t[1] == "PtrMetadata":
+        return _peel_refs(t[2])
+    return None
+
+
+def _guarded_array_range(body, s, n):
+    """arr[a..b] / arr[..b] on a fixed-size array of length n where the guards on every path imply
+    b <= n, and a <= b because b is literally a + len(x) with a small a (no wrap-around)"""
+    if n is None:
+        return None
+    ix = body.origin(s.ops[1])
+    if not (ix[0] == "agg" and ix[1][0] == "adt"):
+        return None
+    nm = ix[1][1]
+    if nm.endswith("::RangeTo") and len(ix[2]) == 1:
+        u = tree_ub_at(body, s.bb, ix[2][0])
+        if u is not None and u <= n:
+            return "range end <= %d <= array length %d (guards / field invariant)" % (u, n)
+        return None
+    if nm.endswith("::Range") and len(ix[2]) == 2:
+        a, b = ix[2]
+        u = tree_ub_at(body, s.bb, b)
+        if u is None or u > n:
+            return None
+        bb = strip_casts(b)
+        if bb[0] == "field" and bb[2] == "0" and bb[1][0] == "bin":
+            bb = ("bin", bb[1][1].replace("WithOverflow", ""), bb[1][2], bb[1][3])
+        if bb[0] == "bin" and bb[1] in ("Add", "AddUnchecked") and _eq_mod_casts(bb[2], a) and _len_tree_of(bb[3]) is not None:
+            au = tree_ub_at(body, s.bb, a)
+            if au is not None and au < 2 ** 62:
+                return "range %s..%s: end <= %d <= array length %d by guard, start <= end since end = start + len(..)" % (fmt(a, 40), fmt(b, 60), u, n)
+    return None
+
+
+def _copy_same_len(body, s):
+    """dst[a..a+len(S)].copy_from_slice(S): equal lengths by construction"""
+    dst, src = _peel_refs(body.origin(s.ops[0])), _peel_refs(body.origin(s.ops[1]))
+    if dst[0] != "call" or not re.search(r"::(index_mut|get_unchecked_mut|index)$", dst[1]) or len(dst[2]) != 2:
+        return None
+    ix = dst[2][1]
+    if not (ix[0] == "agg" and ix[1][0] == "adt" and ix[1][1].endswith("::Range") and len(ix[2]) == 2):
+        return None
+    a, b = ix[2]
+    bb = strip_casts(b)
+    if bb[0] == "field" and bb[2] == "0" and bb[1][0] == "bin":
+        bb = ("bin", bb[1][1].replace("WithOverflow", ""), bb[1][2], bb[1][3])
+    if bb[0] == "bin" and bb[1] in ("Add", "AddUnchecked") and _eq_mod_casts(bb[2], a):
+        S = _len_tree_of(bb[3])
+        if S is not None and FX.strip_sites(S) == FX.strip_sites(src):
+            return "destination range is start..start+len(src): lengths equal by construction"
+    return None
+
+
 def _str_prefix_guard(body, s, base):
     """s[1..] on a str dominated by the true edge of s.starts_with(<one-byte char>): the string has
     at least one byte and byte offset 1 is a char boundary"""
@@ -494,6 +813,10 @@ def auto_discharge(F, s, cfg):
         for g, cond, pol in _cmp_guards(body, s.bb):
             if implies_lt(cond, pol, ix, ln):
                 return "guard %s (%s edge) at bb%d" % (fmt(cond, 100), pol, g)
+        if lnv is not None:
+            u = place_ub_at(body, s.bb, s.ops[1])
+            if u is not None and u < lnv:
+                return "index <= %d < %d on every path (per-definition guards/arithmetic)" % (u, lnv)
         return None
     if s.cls == "unwrap":
         o = body.origin(s.ops[0])
@@ -515,8 +838,13 @@ def auto_discharge(F, s, cfg):
         if d is not None and d[0] in ("lit", "const") and isinstance(upper_bound(d), int) and upper_bound(d) != 0:
             return "constant non-zero divisor"
         if d is not None:
+            lb = guard_lb(body, s.bb, strip_casts(d))
+            if lb is not None and lb >= 1:
+                return "dominating guard implies divisor >= %d" % lb
             s.sig = "%s(divisor %s)" % (s.kind, fmt(d, 120))
             s.toks = tokens(d)
+            s.opsr = [fmt(d, 400)]
+            s.optoks = [tokens(d)]
         return None
     if s.cls == "arith" and s.call is not None and s.call.decl.endswith("::from_str_radix") and len(s.ops) == 2:
         r = body.origin(s.ops[1])
@@ -539,6 +867,9 @@ def auto_discharge(F, s, cfg):
         n = _ty_len(s.call.selfty) if s.call.selfty else None
         if n is None:
             n = const_len(base)
+        why = _guarded_array_range(body, s, n)
+        if why:
+            return why
         rb = range_bounds(body.origin(s.ops[1]))
         if n is not None and rb is not None:
             if rb[0] == "range" and rb[1] is not None and rb[2] is not None and rb[1] <= rb[2] <= n:
@@ -553,6 +884,9 @@ def auto_discharge(F, s, cfg):
         a, b = const_len(body.origin(s.ops[0])), const_len(body.origin(s.ops[1]))
         if a is not None and a == b:
             return "copy_from_slice with equal constant lengths %d" % a
+        why = _copy_same_len(body, s)
+        if why:
+            return why
     if s.cls == "index" and s.call is not None and s.call.decl.endswith("::swap") and len(s.ops) == 3:
         n = const_len(body.origin(s.ops[0]))
         i, j = upper_bound(body.origin(s.ops[1])), upper_bound(body.origin(s.ops[2]))
@@ -649,6 +983,31 @@ def verify_guard(F, s, entry):
     return False, None
 
 
+def verify_callers_guard(F, s, entry):
+    """every non-test workspace call site of the function containing the site must be dominated by a
+    branch whose condition contains all the named tokens and that has an edge avoiding the call"""
+    want = entry["callers_guard"]
+    sites = T.call_sites(F, s.fn)
+    if not sites:
+        return False, "no call sites found"
+    for (p, c) in sites:
+        body = F.body(p)
+        found = False
+        for g in sorted(body.dom.get(c.bb, set())):
+            t = body.term(g)
+            if t[0] != "switch" or const_int(t[1]) is not None:
+                continue
+            tk = tokens(body.origin(t[1]))
+            if not all(_tok_in(w, tk) for w in want):
+                continue
+            if [sx for sx in body.succ[g] if c.bb not in body.reach([sx], avoid=[g])]:
+                found = True
+                break
+        if not found:
+            return False, "the call in %s (%s) is not behind such a branch" % (p, c.span.loc)
+    return True, "%d call site(s)" % len(sites)
+
+
 def _tok_in(w, tk):
     if w in tk:
         return True
@@ -702,6 +1061,18 @@ def check_entries(F, R, pid, entries, cfg, stop=None, classes=None, label=None):
             if ent is not None:
                 i, e = ent
                 used_entries.add(i)
+                if "callers_guard" in e:
+                    ok, where = verify_callers_guard(F, s, e)
+                    if ok:
+                        R.ob("PANIC", s.key(), True, True,
+                             {"rule": "PANIC", "site": s.sig, "fn": s.fn, "loc": s.span.loc, "class": s.cls,
+                              "discharge": "every call site of the enclosing function is behind a branch on %s: %s" % (e["callers_guard"], where)})
+                    else:
+                        R.ob("PANIC", s.key(), False, True)
+                        R.violation("PANIC", s.key() + "/callers-guard-missing",
+                                    "panic site %s in %s relies on its callers checking %s, but %s" % (s.sig, s.fn, e["callers_guard"], where),
+                                    s.span.loc, {"site": s.sig, "expected_callers_guard": e["callers_guard"]})
+                    continue
                 if "guard" in e:
                     ok, where = verify_guard(F, s, e)
                     if ok:
